@@ -192,7 +192,9 @@ def handleChain (args : List String) : String :=
           (if wide then (a != .mips64 || r.ctx.m64) else !r.ctx.m64 && decide (4096 ≤ b) && decide (s ≤ ws.length)) &&
           decide (0 < ws.length) && decide (b + a.ptr * ws.length ≤ a.regMax) && gscanFramesOk env a true fs
         let showExp := fun (e : Exp) => s!"{e.ret},{e.sp},{(e.fp.map toString).getD "-"}"
-        s!"hyp={if hyp then 1 else 0} sp={pAddr a.ptr b s} stack:{hex m.bytes.toList} exp:{"|".intercalate ((gscanChain a.ptr b s fs).map showExp)}"
+        -- `gscanFramesOk_of_junk`: module bases `≥ 4096` and the junk words `< 4096`
+        let junk := r.world.mods.all (fun md => decide (4096 ≤ md.base)) && gscanFramesOkJ env a true fs
+        s!"hyp={if hyp then 1 else 0} junk={if junk then 1 else 0} sp={pAddr a.ptr b s} stack:{hex m.bytes.toList} exp:{"|".intercalate ((gscanChain a.ptr b s fs).map showExp)}"
       else "bad-op"
     | _, _, _, _, _ => "bad-op"
   | "pre" :: tech :: exp :: rest =>
